@@ -144,3 +144,35 @@ def must_reach_in_iteration(cfg: CFG, loop: N, targets: list[N], valuation: dict
 
     ef = both(no_exc, specialize(valuation, cfg))
     return all_paths_pass(starts[0], loop, targets, ef) and all(all_paths_pass(starts[0], ex, targets, ef) for ex in (cfg.exit_return,))
+
+
+def vars_from_call(db: ProgramDB, f: FuncInfo, callee_names: set[str], index: int | None = None, include_nested: bool = False) -> list[str]:
+    """Local names bound from a call of one of ``callee_names`` (``x = f(...)``, ``x = await f(...)``,
+    ``a, b = f(...)`` with ``index`` selecting the tuple position)."""
+    out: list[str] = []
+    it = ast.walk(f.node) if include_nested else walk_local(f.node)
+    for n in it:
+        if not isinstance(n, (ast.Assign, ast.AnnAssign)) or getattr(n, "value", None) is None:
+            continue
+        v = n.value.value if isinstance(n.value, ast.Await) else n.value
+        if not (isinstance(v, ast.Call) and (call_names(db, v, f) & callee_names or (dotted(v.func) or "") in callee_names)):
+            continue
+        tgts = n.targets if isinstance(n, ast.Assign) else [n.target]
+        for t in tgts:
+            if isinstance(t, ast.Name) and index is None:
+                out.append(t.id)
+            elif isinstance(t, (ast.Tuple, ast.List)) and index is not None and index < len(t.elts) and isinstance(t.elts[index], ast.Name):
+                out.append(t.elts[index].id)
+    return out
+
+
+def flag_locals(f: FuncInfo, attr: str = "active") -> set[str]:
+    """Locals assigned from an expression that reads ``.<attr>`` (e.g. ``active = dispatcher is not None and dispatcher.active``)."""
+    out = set()
+    g: FuncInfo | None = f
+    while g is not None:
+        for n in walk_local(g.node):
+            if isinstance(n, ast.Assign) and len(n.targets) == 1 and isinstance(n.targets[0], ast.Name) and any(isinstance(x, ast.Attribute) and x.attr == attr for x in ast.walk(n.value)):
+                out.add(n.targets[0].id)
+        g = g.parent
+    return out
